@@ -383,6 +383,38 @@ impl VirtualRecv {
         self.deliver_reporting_source(src, data, barrier).await.map(|r| r.0)
     }
 
+    /// Like `deliver_reporting_source` without the second (barrier) datagram, for callers on a
+    /// current-thread runtime: the receive task gets `turns` scheduler turns to work the datagram
+    /// off, then whatever it handed on is collected.  Nothing but `data` passes through
+    /// `handle_inbound`, so state it keeps from one datagram to the next is left as it is.
+    pub async fn deliver_quiet(
+        &mut self,
+        src: SocketAddr,
+        data: Vec<u8>,
+        turns: usize,
+    ) -> Option<(RecvOutcome, Option<SocketAddr>)> {
+        use crate::socket::recv::RecvPacket;
+        self.inject.send((src, data)).await.ok()?;
+        for _ in 0..turns {
+            tokio::task::yield_now().await;
+        }
+        let mut outcome = RecvOutcome::Dropped;
+        let mut reported = None;
+        while let Ok(p) = self.out.try_recv() {
+            match p {
+                RecvPacket::UnrecognizedFrame(f) => {
+                    outcome = RecvOutcome::Unrecognized;
+                    reported = Some(f.src_address);
+                }
+                RecvPacket::Inbound(p) => {
+                    outcome = RecvOutcome::Inbound;
+                    reported = Some(p.src_address);
+                }
+            }
+        }
+        Some((outcome, reported))
+    }
+
     /// Like `deliver`; also reports the source address `handle_inbound` attached to what it
     /// handed on (`InboundPacket::src_address` / `UnrecognizedFrame::src_address`).
     pub async fn deliver_reporting_source(
